@@ -460,6 +460,9 @@ type Domain struct {
 	NoArithInListLeft bool
 	// NoLikeOnCIFunc: LIKE over a case-insensitive string takes a bare column as its left operand.
 	NoLikeOnCIFunc bool
+	// NoNegOnDateFunc: no unary minus directly over YEAR()/MONTH()/DAYOFMONTH() (the engine fails with
+	// "invalid type: int" wherever such an expression is evaluated).
+	NoNegOnDateFunc bool
 }
 
 // Gen generates typed expressions over a scope of column references.
@@ -561,7 +564,11 @@ func (g *Gen) Value(k Kind, depth int) *Expr {
 		case 3:
 			return &Expr{Op: "bin", Kind: KInt, Name: "*", Args: []*Expr{g.Value(KInt, depth-1), g.smallInt()}}
 		case 4:
-			return &Expr{Op: "neg", Kind: KInt, Args: []*Expr{g.Value(KInt, depth-1)}}
+			arg := g.Value(KInt, depth-1)
+			if g.NoNegOnDateFunc && arg.Op == "func" && (arg.Name == "YEAR" || arg.Name == "MONTH" || arg.Name == "DAYOFMONTH") {
+				return arg
+			}
+			return &Expr{Op: "neg", Kind: KInt, Args: []*Expr{arg}}
 		case 5:
 			return &Expr{Op: "func", Kind: KInt, Name: "ABS", Args: []*Expr{g.Value(KInt, depth-1)}}
 		case 6:
